@@ -62,7 +62,7 @@ def st_ast(draw, **over):
              "text": draw(cfg["step_text"])}
         if prob(cfg["p_arg"]):
             if draw(st.booleans()):
-                w = count(cfg["max_cols"], 1)
+                w = count(cfg["max_cols"], 1) if draw(st.integers(0, 11)) else 0
                 rows = [row(w) for _ in range(count(3, 1))]
                 s["dataTable"] = {"location": dict(LOC), "rows": rows}
             else:
@@ -84,7 +84,7 @@ def st_ast(draw, **over):
         e = {"id": None, "tags": None, "location": dict(LOC), "keyword": "Examples", "name": draw(cfg["name"]),
              "description": "", "tableBody": []}
         if prob(cfg["p_header"]):
-            w = count(cfg["max_cols"], 1)
+            w = count(cfg["max_cols"], 1) if draw(st.integers(0, 11)) else 0  # a lone '|' is a header with no cells
             hdr = [draw(cfg["header"]) for _ in range(w)]
             e["tableHeader"] = row(w, hdr)
             e["tableBody"] = [row(w) for _ in range(count(cfg["max_rows"]))]
